@@ -226,6 +226,18 @@ def h_gauss(kind, batch, act1):
 
 
 # -------------------------------------------------------------- softmax head
+def log_observer(E, fn, args, kwargs):
+    """records every jnp.log executed by the code under contract whose operand is a softmax output"""
+    if isinstance(fn, C.Builtin) and fn.name in ("jax.numpy.log", "numpy.log") and not E.st.ghost.get("in_spec"):
+        if args and getattr(args[0], "from_softmax", False):
+            E.st.ghost.setdefault("log_of_softmax", []).append(args[0])
+    return None
+
+
+def setup_softmax(shared):
+    shared.observers.append(log_observer)
+
+
 def h_softmax(batch, act1):
     def h(E):
         D, bs, K = scenario(E, batch, act1)
@@ -295,12 +307,52 @@ def h_softmax(batch, act1):
             logits_clause("log_probability", k0)
 
         # ---- entropy
+        # exp / log are uninterpreted: the two identities that relate softmax and log_softmax of the SAME logits are
+        # supplied as facts (Lean: lemmas/SumLemmas.lean c13_log_of_softmax, c13_exp_of_log_softmax; both need S > 0, which
+        # is the softmax model's denominator fact), so that an entropy written through log_softmax meets the same spec
+        exL = T.tfn("exp", L)
+        SL = T.reduce_axis(exL, L.ndim - 1, "sum")
+        s_at = (lambda *b: SL.at(*b)) if isinstance(SL, T.Tensor) else (lambda *b: SL)
+
+        def _id1(*i):
+            b, kk = i[:-1], i[-1]
+            return z3.Implies(z3.And(in_range(list(i), L.shape), C.as_real(s_at(*b)) > 0),
+                              C.as_real(T.scalar_fn("log", C.binop("/", exL.at(*b, kk), s_at(*b))))
+                              == C.as_real(C.binop("-", L.at(*b, kk), T.scalar_fn("log", s_at(*b)))))
+
+        def _id2(*i):
+            b, kk = i[:-1], i[-1]
+            return z3.Implies(z3.And(in_range(list(i), L.shape), C.as_real(s_at(*b)) > 0),
+                              C.as_real(T.scalar_fn("exp", C.binop("-", L.at(*b, kk), T.scalar_fn("log", s_at(*b)))))
+                              == C.as_real(C.binop("/", exL.at(*b, kk), s_at(*b))))
+
+        E.st.assume_forall([INT] * L.ndim, _id1, "explog.log_of_softmax")
+        E.st.assume_forall([INT] * L.ndim, _id2, "explog.exp_of_log_softmax")
         k0 = n_dists(E)
+        h0 = len(E.st.ghost.get("log_of_softmax", []))
         en, ok = call_defined(E, "entropy", E.getattr(pol, "entropy"), obs)
         if ok:
+            value_ok = False
             if p_ok:
                 forall_eq(E, "entropy.is_minus_sum_p_log_p", en, -T.as_tensor(T.reduce(p * T.tfn("log", p), "sum", -1)))
-            logits_clause("entropy", k0)
+                value_ok = any(r.name == "entropy.is_minus_sum_p_log_p" and r.verdict == "discharged" for r in E.st.results[-2:])
+            # float-hazard precondition of log (machine arithmetic is otherwise treated as real): the code under contract
+            # must not apply jnp.log to a softmax OUTPUT - in float32 that output is >= 0, not > 0, and 0 * log 0 = NaN.
+            # (tfp's Categorical.entropy and jax.nn.log_softmax work on the logits and satisfy it.)
+            hz = E.st.ghost.get("log_of_softmax", [])[h0:]
+            if hz:
+                E.st.fail("entropy.log_argument_cannot_underflow",
+                          f"jnp.log applied to a softmax output ({len(hz)} site(s)): a probability that underflows to 0 in float32 "
+                          "makes 0 * log 0 = NaN; in real arithmetic the value obligation still holds")
+            else:
+                E.st.ok("entropy.log_argument_cannot_underflow", backend="structural")
+            # the entropy describes the policy's own distribution: EITHER it is the entropy of a Categorical built from the
+            # network's logits (library contract), OR no distribution object is involved and the value obligation above
+            # (entropy == -sum p log p of the probabilities __call__ returns) has been discharged
+            if new_dists(E, k0) or value_ok is not True:
+                logits_clause("entropy", k0)
+            else:
+                E.st.ok("entropy.categorical_built_from_net_logits", backend="structural")
 
         # ---- canaries
         if p_ok:
@@ -402,7 +454,7 @@ for _kind, _cls in (("tanh", "GaussianTanhPolicy"), ("plain", "GaussianPolicy"))
             TASKS.append(Task(f"{_cls}.{_sn}.{'act1' if _a1 else 'actA'}", h_gauss(_kind, _b, _a1)))
 for _sn, _b in SCENARIOS:
     for _a1 in (False, True):
-        TASKS.append(Task(f"SoftmaxPolicy.{_sn}.{'n1' if _a1 else 'nK'}", h_softmax(_b, _a1)))
+        TASKS.append(Task(f"SoftmaxPolicy.{_sn}.{'n1' if _a1 else 'nK'}", h_softmax(_b, _a1), setup=setup_softmax))
 TASKS += [
     Task("q_policy.greedy.nA", h_greedy_qnet(False)),
     Task("q_policy.greedy.n1", h_greedy_qnet(True)),
